@@ -75,6 +75,11 @@ int main(int argc, char **argv) {
                 fprintf(v_out, "{\"op\":\"stream_at\",\"v\":\"%s\",\"form\":0,\"ret\":%d,\"maxlen\":128,", vname[v], r); v_emit_bytes("k", k, 32); fputc(',', v_out); v_emit_bytes("n", n, vnonce[v]); fputc(',', v_out);
                 v_emit_bytes("ic", ic8, 8); fputc(',', v_out); v_emit_bytes("bytes", big + OFF[o], 128); fputs("}\n", v_out); }
             madvise(big, tot, MADV_DONTNEED); }
+        /* the deterministic generator is ChaCha20-IETF under the nonce "LibsodiumDRG" with the seed as key: same judgement (C18) */
+        { unsigned char seed[32], ic8[8]; vrng_bytes(&R, seed, 32); randombytes_buf_deterministic(big, tot, seed);
+          for (int o = 0; o < 6; o++) { unsigned long long bi = OFF[o] / 64; for (int i = 0; i < 8; i++) ic8[i] = (unsigned char) (bi >> (8 * i));
+              fprintf(v_out, "{\"op\":\"stream_at\",\"v\":\"chacha20_ietf\",\"form\":0,\"ret\":0,\"maxlen\":128,\"drg\":true,"); v_emit_bytes("k", seed, 32); fputc(',', v_out); v_emit_bytes("n", (const unsigned char *) "LibsodiumDRG", 12); fputc(',', v_out);
+              v_emit_bytes("ic", ic8, 8); fputc(',', v_out); v_emit_bytes("bytes", big + OFF[o], 128); fputs("}\n", v_out); } }
         munmap(big, tot); v_close(); return 0;
     }
     uint64_t r32 = vrng_u64(&R) & 0x7fffffff;
